@@ -384,7 +384,24 @@ def gen_fn(fs, cfg, log, vac=False):
     where = '%s::%s' % (fs.file, fs.name)
     srcline = _lineno(src, f['start'])
     sig_src = re.sub(r'\s+', ' ', rustlex.strip_comments(f['sig']))
-    if fs.expect_sig and not re.search(fs.expect_sig, sig_src):
+    if fs.expect_sig and not re.search(fs.expect_sig, sig_src) and fs.sig and not fs.keep_sig:
+        # N5b: a renamed parameter is not a changed signature -- retry with the contract's parameter names, position by position
+        real_p0 = _param_names(sig_src)
+        spec_p0 = _param_names(re.sub(r'\s+', ' ', fs.sig.split('requires')[0].split('ensures')[0]))
+        if real_p0 and spec_p0 and len(real_p0) <= len(spec_p0):
+            sig_try = sig_src
+            for (ro, so) in zip(real_p0, spec_p0):
+                if ro != so and re.match(r'^\w+$', ro) and re.match(r'^\w+$', so):
+                    sig_try = re.sub(r'(?<![\w.])%s(?=\s*:)' % re.escape(ro), so, sig_try)
+            if re.search(fs.expect_sig, sig_try):
+                sig_src_for_check = sig_try
+            else:
+                sig_src_for_check = sig_src
+        else:
+            sig_src_for_check = sig_src
+    else:
+        sig_src_for_check = sig_src
+    if fs.expect_sig and not re.search(fs.expect_sig, sig_src_for_check):
         raise ExtractError('%s: signature changed: `%s` does not match /%s/' % (where, sig_src, fs.expect_sig))
     body = rustlex.strip_comments(f['body'])
     # N5b: parameter names.  The contract's signature names the parameters; if the real function names them
@@ -407,6 +424,10 @@ def gen_fn(fs, cfg, log, vac=False):
             log.append(dict(where=where, rule='N5c_local_rename %s->%s' % (ro, so), matches=k, required=None))
     # N2: drop attributes inside bodies (#[allow(..)] on statements)
     body = re.sub(r'#\[allow\([^\]]*\)\]\s*', '', body)
+    for (gname, grx, grepl) in getattr(rulesmod, 'GLOBAL_PRE_RULES', []):
+        body, k = re.subn(grx, grepl, body, flags=re.S)
+        if k:
+            log.append(dict(where=where, rule=gname, matches=k, required=None))
     body = apply_rules(body, fs, log, where)
     # global normalisations (applied after the unit's own rules, to whatever they left): semantics-preserving
     # rewrites of std/PollArray/PollVec helper calls that Verus cannot read (logged when they match)
@@ -543,7 +564,7 @@ def expand(units, name, cfg, log, seen, vac):
         if s.startswith('//@if '):
             cond = s.split()[1]
             neg = cond.startswith('!')
-            val = (cond.lstrip('!') == cfg)
+            val = True if cond.lstrip('!') == 'yes' else False if cond.lstrip('!') == 'no' else (cond.lstrip('!') == cfg)
             active.append(active[-1] and (val != neg))
             i += 1
             continue
@@ -612,8 +633,9 @@ verus! {
 def generate(units, name, cfg, vac=False):
     log = []
     units = dict(units)
-    lets = units[name].lets
+    lets = dict(units[name].lets)
     if lets:
+        lets.setdefault('POLLPART', 'yes')   # tuple templates: `//@let POLLPART=no` = constructor + Drop only (high arities)
         # ${NAME} substitution applies to every lib pulled in by this unit
         import copy
         def sub(t):
